@@ -6,6 +6,7 @@ import (
 	"go/token"
 	"go/types"
 	"regexp"
+	"sort"
 	"strings"
 
 	"golang.org/x/tools/go/ssa"
@@ -879,11 +880,20 @@ func elemLeafOf(p, arr *Term, et types.Type, sort string, lo, hi *Term) *Term {
 
 func elemLeafOf1(p, arr *Term, et types.Type, sort string, lo, hi *Term) *Term {
 	paths, ok := leafFieldPaths(et, nil, nil)
-	if !ok {
-		if lo != nil {
-			return rootedAtElemRange(p, arr, lo, hi)
+	nsort := 0
+	for _, fp := range paths {
+		if fp.sort == sort {
+			nsort++
 		}
-		return rootedAtElem(p, arr)
+	}
+	if !ok || nsort > 3 {
+		// many leaves: the exact path patterns make a large disjunction the solvers choke on; the
+		// two-level typed region below is a superset of it (havocs no less) and still keeps cells
+		// of unrelated struct types out
+		if lo != nil {
+			return underElem(p, arr, et, lo, hi)
+		}
+		return underElem(p, arr, et, nil, nil)
 	}
 	var alts []*Term
 	for _, fp := range paths {
@@ -893,6 +903,12 @@ func elemLeafOf1(p, arr *Term, et types.Type, sort string, lo, hi *Term) *Term {
 		q := p
 		var cs []*Term
 		for k := len(fp.idx) - 1; k >= 0; k-- {
+			if fp.idx[k] == -1 {
+				// element of an array field (any index)
+				cs = append(cs, P.mk("(_ is elt)", "", SBool, []*Term{q}, nil))
+				q = P.mk("ebase", "", SPtr, []*Term{q}, nil)
+				continue
+			}
 			cs = append(cs, P.mk("(_ is fld)", "", SBool, []*Term{q}, nil), Eq(P.mk("fidx", "", SInt, []*Term{q}, nil), IntT(int64(fp.idx[k]))))
 			q = P.mk("fbase", "", SPtr, []*Term{q}, nil)
 		}
@@ -907,17 +923,89 @@ func elemLeafOf1(p, arr *Term, et types.Type, sort string, lo, hi *Term) *Term {
 }
 
 // rootedAtElem: p is elt(arr,_) or a field path below it (depth <= 3).
-func rootedAtElem(p, arr *Term) *Term {
-	isElt := func(q *Term) *Term {
-		return And(P.mk("(_ is elt)", "", SBool, []*Term{q}, nil), Eq(P.mk("ebase", "", SPtr, []*Term{q}, nil), arr))
+// underElem: p is elt(arr, i) (lo <= i < hi when a range is given) or a cell below it: a field
+// path of depth <= 3, or a byte of an array field. The step right below the element must be a
+// field of the element type et (field identities are per struct type; slice headers and
+// interfaces use the small fixed indices), so a cell of an unrelated struct is never "inside" the
+// array even if the solver picks the struct's address among the array's elements.
+func underElem(p, arr *Term, et types.Type, lo, hi *Term) *Term {
+	var ids []int
+	switch kindOf(et) {
+	case kStruct:
+		st := et.Underlying().(*types.Struct)
+		for i := 0; i < st.NumFields(); i++ {
+			ids = append(ids, fieldID(st, i))
+		}
+	case kSlice:
+		ids = []int{1, 2, 3, 4}
+	case kIface:
+		ids = []int{5, 6}
+	}
+	// second step: fields of the struct-typed fields of et (slice headers / interfaces: fixed indices)
+	ids2 := map[int]bool{}
+	anyArrayField := false
+	if st, isSt := et.Underlying().(*types.Struct); isSt && kindOf(et) == kStruct {
+		for i := 0; i < st.NumFields(); i++ {
+			ft := st.Field(i).Type()
+			switch kindOf(ft) {
+			case kStruct:
+				st2 := ft.Underlying().(*types.Struct)
+				for k := 0; k < st2.NumFields(); k++ {
+					ids2[fieldID(st2, k)] = true
+				}
+			case kSlice:
+				for _, k := range []int{1, 2, 3, 4} {
+					ids2[k] = true
+				}
+			case kIface:
+				ids2[5], ids2[6] = true, true
+			case kArray:
+				anyArrayField = true
+			}
+		}
 	}
 	isFld := func(q *Term) *Term { return P.mk("(_ is fld)", "", SBool, []*Term{q}, nil) }
+	isAnyElt := func(q *Term) *Term { return P.mk("(_ is elt)", "", SBool, []*Term{q}, nil) }
 	fb := func(q *Term) *Term { return P.mk("fbase", "", SPtr, []*Term{q}, nil) }
-	d0 := isElt(p)
-	d1 := And(isFld(p), isElt(fb(p)))
-	d2 := And(isFld(p), isFld(fb(p)), isElt(fb(fb(p))))
-	d3 := And(isFld(p), isFld(fb(p)), isFld(fb(fb(p))), isElt(fb(fb(fb(p)))))
-	return Or(d0, d1, d2, d3)
+	eb := func(q *Term) *Term { return P.mk("ebase", "", SPtr, []*Term{q}, nil) }
+	fidx2In := func(q *Term) *Term {
+		var ks []int
+		for k := range ids2 {
+			ks = append(ks, k)
+		}
+		sort.Ints(ks)
+		var alts []*Term
+		for _, k := range ks {
+			alts = append(alts, Eq(P.mk("fidx", "", SInt, []*Term{q}, nil), IntT(int64(k))))
+		}
+		return Or(alts...)
+	}
+	_ = anyArrayField
+	base := func(q *Term) *Term {
+		cs := []*Term{isAnyElt(q), Eq(eb(q), arr)}
+		if lo != nil {
+			idx := P.mk("eidx", "", SInt, []*Term{q}, nil)
+			cs = append(cs, Le(lo, idx), Lt(idx, hi))
+		}
+		return And(cs...)
+	}
+	fidxIn := func(q *Term) *Term {
+		if kindOf(et) == kArray {
+			return True() // arrays of arrays: no typed first step
+		}
+		var alts []*Term
+		for _, id := range ids {
+			alts = append(alts, Eq(P.mk("fidx", "", SInt, []*Term{q}, nil), IntT(int64(id))))
+		}
+		return Or(alts...)
+	}
+	d0 := base(p)
+	d1 := And(isFld(p), base(fb(p)), fidxIn(p))
+	d2 := And(isFld(p), isFld(fb(p)), base(fb(fb(p))), fidxIn(fb(p)), fidx2In(p))
+	d3 := And(isFld(p), isFld(fb(p)), isFld(fb(fb(p))), base(fb(fb(fb(p)))), fidxIn(fb(fb(p))), fidx2In(fb(p)))
+	a2 := And(isAnyElt(p), isFld(eb(p)), base(fb(eb(p))), fidxIn(eb(p)))
+	a3 := And(isAnyElt(p), isFld(eb(p)), isFld(fb(eb(p))), base(fb(fb(eb(p)))), fidxIn(fb(eb(p))), fidx2In(eb(p)))
+	return Or(d0, d1, d2, d3, a2, a3)
 }
 
 // ---- pure functions
